@@ -17,7 +17,8 @@ CONFIGS = {
                       ("ControllerMC_dualreq.cfg", "edges")],
             "thorough": [("ControllerMC_req.cfg", "edges"), ("ControllerMC_dual.cfg", "edges"), ("ControllerMC_pinmove.cfg", "edges"),
                          ("ControllerMC_dualreq.cfg", "edges"), ("ControllerMC_dual_sim.cfg", "sim")]},
-    "C03": {"quick": [("ControllerMC_stable.cfg", "edges"), ("ControllerMC_stable_il.cfg", "edges"), ("ControllerMC_stablefault.cfg", "edges")],
+    "C03": {"quick": [("ControllerMC_stable.cfg", "edges"), ("ControllerMC_stable_il.cfg", "edges"), ("ControllerMC_stablefault.cfg", "edges"),
+                      ("ControllerMC_crash3.cfg", "edges")],
             "thorough": [("ControllerMC_stable.cfg", "edges"), ("ControllerMC_stable_il.cfg", "edges"), ("ControllerMC_stablefault.cfg", "edges"),
                          ("ControllerMC_stable_sim.cfg", "sim")]},
     "C06": {"quick": [("ControllerMC_crash.cfg", "edges"), ("ControllerMC_crash3.cfg", "edges"), ("ControllerMC_fault.cfg", "edges")],
@@ -48,16 +49,17 @@ def release_kind(walk_obs, k):
         a, b = walk_obs[r - 1], walk_obs[r]
         if a["ctl"] != b["ctl"]:
             return "pools"
+        wf = "+writefail" if any(not x.get("ok") for x in b.get("writes", [])) else ""
         for s, m in a["mem"].items():
             n = b["mem"].get(s)
             if n is None:
-                return "removed"
+                return "removed" + wf
             if sorted(n["ips"]) != sorted(m["ips"]):
-                return "ips"
+                return "ips" + wf
             if n["ports"] != m["ports"]:
-                return "ports"
+                return "ports" + wf
             if (n["sk"], n["bk"]) != (m["sk"], m["bk"]):
-                return "key"
+                return "key" + wf
     return "none"
 
 
